@@ -18,6 +18,8 @@ import (
 type Config struct {
 	Tier          int
 	Unwind        int
+	CutFn         string // function-name suffix whose loops are cut after CutN iterations (outside claim)
+	CutN          int
 	MaxSteps      int64
 	MaxDepth      int
 	MaxDecisions  int
